@@ -173,6 +173,49 @@ def run(ctx):
             cov.hit("read-only-interleaved")
         except Exception as e:
             cov.hit(f"readonly-raised:{name}:{exc_enum(e)}")
+    long_streams(ctx)
     # ---- tie: Lean folds vs implementation (fit, partial_fit partitions, re-fit)
     e2e.base_histories(ctx, "C06", ctx.scale(150, 3000), ctx.scale(20, 80), fields=("labels", "W"))
     e2e.smap_histories(ctx, "C06", ctx.scale(120, 2500), ctx.scale(16, 60))
+
+
+def long_streams(ctx):
+    """the statement has no bound on the stream length: streams of several hundred to a few thousand rows (around
+    powers of two, where chunked readers, buffers and pre-allocated arrays change regime), one fit against row-by-row
+    partial_fit and against an uneven split"""
+    cov = ctx.cov
+    sizes = [255, 256, 257, 300, 383, 385, 511, 513, 640, 1000, 1025, 2049, 4097]
+    for i in range(ctx.scale(6, 60)):
+        r = gen.rng_for(ctx.seed, "C06-long", i)
+        name = ["FuzzyART", "ART1", "HypersphereART", "SimpleARTMAP", "FusionART", "ART2A"][i % 6]
+        n = [257, 300, 383, 513, 600, 255][i % 6] if ctx.tier == "quick" else r.choice(sizes)
+        fam, rows = families.build(r, name, 12)
+        # few distinct rows, many repeats: the model stays small, the stream is long
+        idx = np.array([r.randrange(len(rows)) for _ in range(n)])
+        rows = rows.take(idx)
+        desc = dict(fam.describe(), n=n, row_index=idx.tolist())
+        try:
+            ref = fam.make()
+            for j in range(n):
+                fam.pfit(ref, rows.sl(j, j + 1))
+            ref_snap = fam.snap(ref)
+        except Exception as e:
+            cov.hit(f"long:ref-raised:{name}:{exc_enum(e)}")
+            continue
+        for how in ("fit", "split"):
+            try:
+                est = fam.make()
+                if how == "fit":
+                    fam.fit(est, rows)
+                else:
+                    a = r.randint(1, n - 1)
+                    fam.pfit(est, rows.sl(0, a))
+                    fam.pfit(est, rows.sl(a, n))
+                if not eq_snap(fam.snap(est), ref_snap):
+                    ctx.issue("violation", f"{name}:long-stream:{how}!=row-by-row",
+                              f"{n} rows: {how} gives a different model than presenting the rows one partial_fit call at a time "
+                              f"(labels_ {len(np.asarray(getattr(est, 'labels_', [])))} entries)", dict(desc, how=how))
+            except Exception as e:
+                ctx.issue("violation", f"{name}:long-stream:{how}:{exc_enum(e)}", f"{n} rows: {how} raised {e!r}", dict(desc, how=how))
+        cov.hit(f"long-stream:{n}")
+        cov.case(("long", name, fam.spec, n, desc["row_index"]), True)
